@@ -42,6 +42,8 @@ func rulesC19(c *Ctx) {
 	c18GRPC(c)
 	c19Responses(c)
 	c19ChildContexts(c)
+	// connections are released into the pool of the transport the caller gave (the shared default when none)
+	c18EntryPoints(c)
 	c.Rule("hedge-attempt")
 	c09Loop(c)
 	c.Rule("timeout-timer")
@@ -373,15 +375,22 @@ func c18HTTPAttempt(c *Ctx, aspects map[string]bool) {
 				b := ev.LoadField(q.State, req, "Body")
 				fresh := bodyCalls[0].Res[0]
 				okB := b == fresh
+				wrapped := false
 				if !okB {
 					for _, e := range evs {
 						if isCall(e, "NopCloser") && len(e.Res) == 1 && e.Res[0] == b && e.Args[0] == fresh {
-							okB = true
+							okB, wrapped = true, true
 						}
 					}
 				}
 				if !okB {
 					bad("the attempt's request body must be the fresh reader (wrapped in io.NopCloser when it is not a ReadCloser)")
+					continue
+				}
+				// a reader that already is a ReadCloser goes to the transport as it is: net/http recognises an empty body
+				// (http.NoBody) by identity, and wrapping it turns "Content-Length: 0" into a chunked request
+				if rc := findTypeOK(q, fresh, "io.ReadCloser"); rc == nil || (q.State.Facts.Truth(ts, rc) == triT) == wrapped {
+					bad("the fresh reader must be used as it is when it is an io.ReadCloser (http.NoBody is recognised by identity) and wrapped in io.NopCloser only otherwise")
 					continue
 				}
 			case triF:
